@@ -812,7 +812,11 @@ class Interp:
         if k == 's':
             if a[1] != b[1] or len(a[2]) != len(b[2]):
                 return ('top', None)
-            return ('s', a[1], tuple(self.join_val(out, s1, s2, x, y, widen) for x, y in zip(a[2], b[2])), a[3] if a[3] == b[3] else None)
+            org = a[3]
+            if a[3] != b[3]:
+                from .models import cause_of
+                org = a[3] if (a[3] and b[3] and cause_of(a[3]) == cause_of(b[3])) else None
+            return ('s', a[1], tuple(self.join_val(out, s1, s2, x, y, widen) for x, y in zip(a[2], b[2])), org)
         if k == 'e':
             if a[1] != b[1]:
                 return ('top', None)
@@ -1088,8 +1092,6 @@ class Interp:
                 v = self._relocate(s, fid, v, {})
                 del s.frames[fid]
             out.append((s, v))
-        for h in self.return_hooks:
-            h(self, fn, len(self.stack), out)
         part = self.return_partition.get(fn)
         if part is not None and len(out) > 1:
             groups = {}
@@ -1105,6 +1107,8 @@ class Interp:
                 out.append((s, v))
         if len(out) > self.max_disj:
             out = self.merge_results(out, self.max_disj)
+        for h in self.return_hooks:
+            h(self, fn, len(self.stack), out)
         return out
 
     def _relocate(self, st, fid, v, moved, depth=0):
